@@ -189,7 +189,7 @@ class LockOracle(Observer):
                         self.prop,
                         f"{self.prop}.must_be_restored",
                         f"step {w.nstep} ({ev.get('k') if ev else 'end'}): no live graph refers to array {hk}, yet it is still read-only{extra}",
-                        tag=f"{self.prop}.must_be_restored/origin={origin}/holder={kind.split('/')[0]}/ev={self._evtag(ev)}" + ("/leak" if referred_unreachable else ""),
+                        tag=f"{self.prop}.must_be_restored/origin={origin}/holder={kind.split('/')[0]}/ev={self._evtag(ev)}" + ("/leak" if referred_unreachable else "") + ("/after_graph_cycle" if w.graph_cycle_seen else ""),
                     ):
                         return
                     continue
@@ -330,7 +330,7 @@ class GradOracle(Observer):
                         self.prop,
                         f"{self.name}.grad_on_constant" if i.const else f"{self.name}.unexpected_grad",
                         f"step {w.nstep}: handle {k} ({'constant' if i.const else 'non-constant'} {role}) has a gradient {np.asarray(g).tolist()!r:.120} where none is expected",
-                        tag=f"{self.name}.{'grad_on_constant' if i.const else 'unexpected_grad'}/{role}",
+                        tag=f"{self.name}.{'grad_on_constant' if i.const else 'unexpected_grad'}/{role}/made_by={i.made_by}",
                     )
                     return
             elif e[0] == "keep":
@@ -792,7 +792,7 @@ class NoTraceOracle(Observer):
             self.snap = self._snapshot(w)
             # half-forgotten view links: the tensor's graph was cleared, or its base was (and no
             # longer lists it); any use - successful or not - may drop such a link (DESIGN C13)
-            self.lingering = {h for h, t in w.T.items() if t.base is not None and (t.creator is None or w.info[h].stale)}
+            self.lingering = {h for h, t in w.T.items() if t.base is not None and (t.creator is None or w.info[h].stale or w.info[h].fam.born == -1)}
         else:
             self.snap = None
 
@@ -812,8 +812,8 @@ class NoTraceOracle(Observer):
             names = ("identity", "value", "dtype", "shape", "constant", "base")
             for n, x, y in zip(names, a, b):
                 if x != y:
-                    if n == "base" and h in self.lingering and y is None:
-                        continue  # a lingering base link may be dropped by any use (DESIGN C13)
+                    if n == "base" and h in self.lingering:
+                        continue  # a half-forgotten base link may be dropped / re-pointed by any use, successful or not (DESIGN C13)
                     if w.violation(
                         "C13",
                         f"C13.snapshot_{n}",
@@ -984,8 +984,8 @@ class NoMutationOracle(Observer):
                 if np.shares_memory(gx, gy) and not (tx.data.size and ty.data.size and np.shares_memory(tx.data, ty.data)):
                     v2 = "via_seed" if (sa[hx] and sa[hy]) else "other"
                     for hh, tt in ((hx, tx), (hy, ty)):
-                        if w.info[hh].stale and tt.base is not None:
-                            v2 = "stale_view"
+                        if (w.info[hh].stale or w.info[hh].fam.born == -1) and tt.base is not None:
+                            v2 = "stale_view"  # (or a view of a left-over view)
                     if w.violation("C12", "C12.grad_alias", f"step {w.nstep}: gradients of handles {hx},{hy} share memory but their data do not", tag=f"C12.grad_alias/grad_grad/{v2}"):
                         return
             for hy, ty, _ in items:
@@ -1012,7 +1012,7 @@ class NoMutationOracle(Observer):
                     if h in others_g and _ck(g) != others_g[h]:
                         v3 = via
                         for hh, tt in ((hx, tx), (h, t)):
-                            if w.info[hh].stale and tt.base is not None:
+                            if (w.info[hh].stale or w.info[hh].fam.born == -1) and tt.base is not None:
                                 v3 = "stale_view"
                         if w.violation("C12", "C12.grad_edit_leaks", f"step {w.nstep}: editing the gradient of handle {hx} in place changed the gradient of handle {h}", tag=f"C12.grad_edit_leaks/grad/{v3}"):
                             return
@@ -1208,7 +1208,7 @@ class ReleaseOracle(Observer):
             "C07",
             "C07.not_freed_by_refcount",
             f"step {w.nstep}: after backward() {len(wr)} object(s) of the cleared graph ({', '.join(kinds)}) that the caller does not reference are still alive with the cyclic collector off ({cls}: {still} survive a gc.collect())",
-            tag=f"C07.not_freed_by_refcount/{cls}/{'+'.join(k.split(':')[0] for k in kinds)}",
+            tag=f"C07.not_freed_by_refcount/{cls}/{'+'.join(k.split(':')[0] for k in kinds)}" + ("/after_graph_cycle" if w.graph_cycle_seen else ""),
         )
 
 
